@@ -145,10 +145,27 @@ class Graph:
 
 def brute_cycles(g):
     """All elementary cycles of {node: successors}, each as a tuple rotated so
-    that its smallest node comes first.  Plain DFS, no cleverness."""
+    that its smallest node comes first.  Plain DFS over simple paths, confined
+    to the strongly connected component of the start node (mutual
+    reachability, computed by a boolean closure) so that large acyclic
+    regions cost nothing."""
     nodes = sorted(g)
+    reach = {u: set(x for x in g[u] if x in g) for u in nodes}
+    changed = True
+    while changed:
+        changed = False
+        for u in nodes:
+            new = set()
+            for v in reach[u]:
+                new |= reach[v]
+            if not new <= reach[u]:
+                reach[u] |= new
+                changed = True
     out = []
     for s in nodes:
+        scc = {v for v in reach[s] if s in reach[v]}
+        if s not in reach[s]:
+            continue
         path = [s]
         onpath = {s}
 
@@ -156,7 +173,7 @@ def brute_cycles(g):
             for v in sorted(set(g[u])):
                 if v == s:
                     out.append(tuple(path))
-                elif v > s and v not in onpath and v in g:
+                elif v > s and v not in onpath and v in scc:
                     path.append(v)
                     onpath.add(v)
                     dfs(v)
